@@ -469,3 +469,125 @@ def work_aliases(task):
 def tasks_aliases():
     cfgs = [{"category": c, "hash": h} for c in (None, "admin", "legacy", "unknown") for h in ("sha256@1500", "sha256@3500", "md5")]
     return [{"cfgs": cfgs[i::4]} for i in range(4)]
+
+
+# ---------------------------------------------------------------------------
+# part "derived": the policy of a context reached through copy / update / using / export+import / load(other context)
+# is the policy of its configuration -- in particular a per-category deprecated list that is EMPTY (falsy, yet
+# meaningful: "nothing is deprecated for this category", it shadows the global list) survives every derivation
+# ---------------------------------------------------------------------------
+DERIVED_SCHEMES = ("sha256_crypt", "md5_crypt", "des_crypt")
+DERIVED_GLOBAL = (None, ["md5_crypt"], ["md5_crypt", "des_crypt"], "auto", [])
+DERIVED_ADMIN = ("unset", [], "", ["des_crypt"], ["md5_crypt", "des_crypt"])
+DERIVATIONS = ("ctor", "update_empty", "update_other_key", "copy", "copy_of_copy", "using", "dict_roundtrip", "dict_resolved_roundtrip",
+               "string_roundtrip", "load_ctx", "load_update_dict", "load_update_string")
+
+
+def derived_configs():
+    return [{"global": g, "admin": a, "route": r} for g in DERIVED_GLOBAL for a in DERIVED_ADMIN for r in DERIVATIONS]
+
+
+def _derive(ctx, route):
+    from passlib.context import CryptContext
+
+    if route == "ctor":
+        return ctx
+    if route == "update_empty":
+        ctx.update()
+        return ctx
+    if route == "update_other_key":
+        ctx.update(sha256_crypt__max_rounds=5000)
+        return ctx
+    if route == "copy":
+        return ctx.copy()
+    if route == "copy_of_copy":
+        return ctx.copy().copy(sha256_crypt__max_rounds=5000)
+    if route == "using":
+        return ctx.using(sha256_crypt__default_rounds=1000)
+    if route == "dict_roundtrip":
+        return CryptContext(**ctx.to_dict())
+    if route == "dict_resolved_roundtrip":
+        return CryptContext(**ctx.to_dict(resolve=True))
+    if route == "string_roundtrip":
+        return CryptContext.from_string(ctx.to_string())
+    if route == "load_ctx":
+        other = CryptContext(schemes=["md5_crypt"])
+        other.load(ctx)
+        return other
+    if route == "load_update_dict":
+        ctx.load({"sha256_crypt__max_rounds": 5000}, update=True)
+        return ctx
+    if route == "load_update_string":
+        ctx.load("[passlib]\nsha256_crypt__max_rounds = 5000\n", update=True)
+        return ctx
+    raise KeyError(route)
+
+
+def eval_derived(cfg):
+    from passlib.context import CryptContext
+
+    out = []
+    key = f"C04|derived|{cfg['route']}:"
+    kw = dict(schemes=list(DERIVED_SCHEMES), sha256_crypt__rounds=1000)
+    if cfg["global"] is not None:
+        kw["deprecated"] = cfg["global"]
+    if cfg["admin"] != "unset":
+        kw["admin__context__deprecated"] = cfg["admin"]
+
+    def depset(cat):
+        d = cfg["global"]
+        if cat == "admin" and cfg["admin"] != "unset":
+            d = cfg["admin"]
+        if d == "auto":
+            return set(DERIVED_SCHEMES[1:])
+        return set(d or ())
+
+    hashes = {s: (HS.handler(s).using(rounds=1000) if s == "sha256_crypt" else HS.handler(s)).hash(PW) for s in DERIVED_SCHEMES}
+    try:
+        ctx = _derive(CryptContext(**kw), cfg["route"])
+    except Exception as e:  # noqa: BLE001
+        return [(key + f"raises:{type(e).__name__}", f"CryptContext(**{kw!r}) then {cfg['route']} raised {e!r}")]
+    for cat in (None, "admin", "other"):
+        dep = depset(cat)
+        for s, h in hashes.items():
+            want = s in dep
+            try:
+                got = {"needs_update": bool(ctx.needs_update(h, category=cat)),
+                       "verify_and_update": ctx.verify_and_update(PW, h, category=cat)[1] is not None,
+                       "handler.deprecated": bool(ctx.handler(s, category=cat).deprecated)}
+            except Exception as e:  # noqa: BLE001
+                out.append((key + f"raises:{type(e).__name__}", f"{kw!r} after {cfg['route']}, category {cat!r}, {s} hash: raised {e!r}"))
+                continue
+            for what, g in got.items():
+                if g != want:
+                    out.append((key + f"{what}:{'missed' if want else 'spurious'}:{'category_list_empty' if cat == 'admin' and cfg['admin'] in ([], '') else 'other'}",
+                                f"CryptContext(**{kw!r}) after {cfg['route']}: {what} for the {s} hash under category {cat!r} = {g}; "
+                                f"deprecated for that category: {sorted(dep)}"))
+    return out
+
+
+_replay_aliases = replay
+
+
+def replay(case):  # noqa: F811
+    if case.get("part") == "derived":
+        return eval_derived(case["cfg"])
+    return _replay_aliases(case)
+
+
+def work_derived(task):
+    acc = Acc()
+    for cfg in task["cfgs"]:
+        acc.ev()
+        acc.cls("derived", repr(cfg["global"]), repr(cfg["admin"]), cfg["route"])
+        acc.axis("derivation", cfg["route"])
+        vs = eval_derived(cfg)
+        acc.outcome(("derived", "viol" if vs else "ok"))
+        for key, desc in vs:
+            acc.violation(key, desc, {"part": "derived", "cfg": cfg})
+    return acc
+
+
+def tasks_derived():
+    cfgs = derived_configs()
+    return [{"cfgs": cfgs[i::16]} for i in range(16)]
